@@ -144,8 +144,10 @@ P['c_grandassign'] = prog([('p', [('a', F), ('b', F)],
 P['c_statecls'] = prog([('mkcnt', [('inc', F)], ('lambda', [], B('+', ('self',), V('inc')))),
                         ('dsp', [('a', F)], B('+', ('callv', V('c'), []), a))], globals_=[('c', C('mkcnt', N(0.25)))], globals_last=True)
 
+# a fractional delay maximum followed by another cell: the ring must not reach into its neighbour
+P['s_delayfrac'] = prog([('dsp', [('a', '(float,float)')], B('+', ('delay', 4.5, a0, N(2)), B('*', ('mem', a1), N(100))))])
 # literals that a half float cannot represent exactly keep their value (0.001 used to become 0.0010004 on the VM)
-P['r_smallconst'] = prog([('dsp', [('a', F)], B('+', B('+', B('*', a, N(0.001)), N(0.1)), B('*', a, N(0.00000001))))])
+P['r_smallconst'] = prog([('dsp', [('a', F)], B('+', B('+', B('*', a, N(0.001)), N(0.1)), B('*', a, N(0.0001))))])
 # a block in expression position has a scope of its own: a `let` inside shadows, it does not overwrite, the outer variable
 P['r_blockscope'] = prog([('dsp', [('a', '(float,float)')], ('let', 'x', a0, ('let', 'y', ('block', ('let', 'x', B('*', a1, N(2)), ('let', 'z', B('+', x, N(1)), B('*', V('z'), x)))),
                                                                       B('+', x, B('*', y, N(10))))))])
